@@ -273,6 +273,70 @@ pub fn pick_port(_rng: &mut hvutil::Rng) -> u16 {
     panic!("no free port found");
 }
 
+
+// ---------------------------------------------------------------------- the port after run returned
+/// inodes of the sockets in LISTEN state on `port`
+fn listen_inodes(port: u16) -> Vec<String> {
+    let mut v = vec![];
+    for f in ["/proc/net/tcp", "/proc/net/tcp6"] {
+        if let Ok(s) = std::fs::read_to_string(f) {
+            for line in s.lines().skip(1) {
+                let cols: Vec<&str> = line.split_whitespace().collect();
+                if cols.len() > 9 && cols[3] == "0A" {
+                    if let Some(p) = cols[1].rsplit(':').next() {
+                        if u16::from_str_radix(p, 16).ok() == Some(port) {
+                            v.push(cols[9].to_string());
+                        }
+                    }
+                }
+            }
+        }
+    }
+    v
+}
+
+fn own_socket(inode: &str) -> bool {
+    let want = format!("socket:[{}]", inode);
+    if let Ok(rd) = std::fs::read_dir("/proc/self/fd") {
+        for e in rd.flatten() {
+            if let Ok(t) = std::fs::read_link(e.path()) {
+                if t.to_string_lossy() == want {
+                    return true;
+                }
+            }
+        }
+    }
+    false
+}
+
+pub fn bind_addr(bind: &str, port: u16) -> SocketAddr {
+    if bind.contains(':') { format!("[{}]:{}", bind, port) } else { format!("{}:{}", bind, port) }.parse().unwrap()
+}
+
+/// Called by the thread that called `run`, as its very next statements: records Run_Return and binds the same
+/// address again AT ONCE (no wait, no retry).  A failed bind is a fact about this process when the socket
+/// listening on the port is our own (or nobody listens); when another process has taken the port in the
+/// meantime nothing is recorded.
+pub fn after_return(ctx: &Ctx, bind: &str, port: u16, ok: bool) {
+    ctx.record("Run_Return", "main", -1, if ok { 1 } else { 0 }, "");
+    if !ok {
+        return;
+    }
+    let r = TcpListener::bind(bind_addr(bind, port));
+    match r {
+        Ok(l) => {
+            ctx.record("Rebind", "main", -1, 1, "");
+            drop(l);
+        }
+        Err(_) => {
+            let ino = listen_inodes(port);
+            if ino.is_empty() || ino.iter().any(|i| own_socket(i)) {
+                ctx.record("Rebind", "main", -1, 0, "");
+            }
+        }
+    }
+}
+
 // ------------------------------------------------------------------------------------- scenario
 #[derive(Clone, Debug)]
 pub struct Cfg {
@@ -281,7 +345,9 @@ pub struct Cfg {
     pub nw: usize,    // pool threads / runtime worker threads
     pub bind: String, // "127.0.0.1" | "0.0.0.0" | "::"
     pub nc: usize,    // client connections 1..=nc
-    pub sigkind: String, // "send" | "drop" (threaded: Sender dropped instead of a message)
+    pub sigkind: String, // "send" | "drop" (threaded: Sender dropped instead of a message) | "twice" (signalled twice)
+    pub flavor: String,  // tokio runtime flavour: "multi" (worker_threads = nw) | "current" (current_thread)
+    pub restart: bool,   // after the shutdown a second App is run on the same address and port
     pub steps: Vec<Value>,
     pub expect: Value, // model's final per-connection outcome for TLC-generated behaviours (or null)
 }
@@ -649,6 +715,10 @@ impl Driver {
         self.sig_sent = true;
         self.ctx.record("Sig_Send", "drv", -1, 0, &self.cfg.sigkind.clone());
         (self.server.signal)();
+        if self.cfg.sigkind == "twice" {
+            self.ctx.record("Sig_Send", "drv", -1, 0, "again");
+            (self.server.signal)();
+        }
     }
 
     pub fn await_ev(&mut self, name: &str, c: i64, from: usize) -> bool {
@@ -691,6 +761,13 @@ impl Driver {
             "close" => self.close(c),
             "sig" => self.signal(),
             "sig_async" => self.signal_async(c.max(0) as u64),
+            "sig2" => {
+                // the signal once more (Sig_Again of the model)
+                if self.sig_sent && self.sig_thread.is_none() {
+                    self.ctx.record("Sig_Send", "drv", -1, 0, "again");
+                    (self.server.signal)();
+                }
+            }
             "finish" => self.ctx.finish(c),
             "recv" => self.recv_blocking(c),
             "recvpart" => self.recv_part(c),
@@ -806,29 +883,16 @@ impl Driver {
         let sig_to_return_ms = t_sig.elapsed().as_millis() as u64;
         let mut rebind = Value::Null;
         if returned {
-            // 3. the port: listener gone, and it can be bound again on the same address
+            // 3. the port: the run thread has bound it again immediately after run returned (Rebind record);
+            // here only the absence of our listener is observed
             let port = self.port;
-            if wait_cond(&self.ctx.clone(), || !listening(port)) {
-                self.ctx.record("Obs_Closed", "drv", -1, 0, "");
-            }
-            let baddr: SocketAddr = format!("{}:{}", if self.cfg.bind.contains(':') { format!("[{}]", self.cfg.bind) } else { self.cfg.bind.clone() }, port).parse().unwrap();
-            // another process of this machine may grab the port in between: a failed bind counts only when
-            // nobody else is listening there now
-            let mut r = TcpListener::bind(baddr);
-            for _ in 0..5 {
-                if r.is_ok() {
-                    break;
+            if wait_cond(&self.ctx.clone(), || self.ctx.has_event("Rebind") || !listening(port)) {
+                let me_port = port;
+                if wait_cond(&self.ctx.clone(), || !listening(me_port)) {
+                    self.ctx.record("Obs_Closed", "drv", -1, 0, "");
                 }
-                std::thread::sleep(Duration::from_millis(40));
-                r = TcpListener::bind(baddr);
             }
-            if r.is_ok() || !listening(port) {
-                self.ctx.record("Rebind", "drv", -1, if r.is_ok() { 1 } else { 0 }, "");
-                rebind = json!(r.is_ok());
-            } else {
-                self.problems.push("port taken by another process before the re-bind: inconclusive".into());
-            }
-            drop(r);
+            rebind = self.ctx.log.lock().unwrap().iter().find(|e| e.ev == "Rebind").map_or(Value::Null, |e| json!(e.v == 1));
         } else {
             self.hang = true;
         }
@@ -957,14 +1021,20 @@ fn state_steps(c: i64, st: &str, out: &mut Vec<Value>, waits: &mut Vec<Value>) {
 pub fn matrix_scenario(rng: &mut hvutil::Rng, idx: usize, rt: &str) -> Cfg {
     let nw = rng.range(1, 8);
     let bind = ["127.0.0.1", "0.0.0.0", "::"][idx % 3].to_string();
+    // 0..48 connections; every fifth scenario opens at least 3 x pool connections (+ up to 8) that all stay open,
+    // so that 2 x pool and more jobs wait behind a fully occupied pool when the signal arrives
+    let deep = idx % 5 == 2;
     let nc = match idx % 5 {
         0 => 0,
         1 => rng.range(1, 3),
-        2 => 16,
+        2 => (3 * nw + rng.range(0, 8)).min(48),
+        3 => rng.range(17, 48),
         _ => rng.range(2, 16),
     };
+    let flavor = if rt == "tokio" && rng.chance(1, 3) { "current" } else { "multi" };
+    let restart = rng.chance(1, 4);
     let pos = ["before_first", "between", "concurrent", "after_all"][rng.below(4)];
-    let saturate = rng.chance(1, 3);
+    let saturate = deep || rng.chance(1, 3);
     let sig_at: usize = match pos {
         "before_first" => 0,
         "after_all" => nc,
@@ -987,6 +1057,8 @@ pub fn matrix_scenario(rng: &mut hvutil::Rng, idx: usize, rt: &str) -> Cfg {
         let mut st = STATES[rng.below(STATES.len())].to_string();
         if saturate && (c as usize) <= nw {
             st = if rng.chance(1, 2) { "long".into() } else { "longkeep".into() };
+        } else if deep && st == "short" {
+            st = "queued_full".into(); // stays open
         }
         if st == "writing" {
             big += 1;
@@ -1020,17 +1092,17 @@ pub fn matrix_scenario(rng: &mut hvutil::Rng, idx: usize, rt: &str) -> Cfg {
     if !sig_done {
         steps.push(json!(["sig"]));
     }
-    let sigkind = if rt == "threaded" && rng.chance(1, 6) { "drop" } else { "send" };
-    Cfg { id: format!("matrix-{}-{}", rt, idx), rt: rt.to_string(), nw, bind, nc, sigkind: sigkind.into(), steps,
+    let sigkind = if rt == "threaded" && rng.chance(1, 6) { "drop" } else if rng.chance(1, 5) { "twice" } else { "send" };
+    Cfg { id: format!("matrix-{}-{}", rt, idx), rt: rt.to_string(), nw, bind, nc, sigkind: sigkind.into(), flavor: flavor.into(), restart, steps,
           expect: json!({"states": states, "pos": pos, "saturate": saturate}) }
 }
 
 /// The gated races of DESIGN C20 (method D) as scripts.
 pub fn race_scenarios(rt: &str) -> Vec<Cfg> {
     let mut v = vec![];
-    let mk = |id: &str, nw: usize, bind: &str, nc: usize, steps: Vec<Value>| Cfg {
-        id: format!("race-{}-{}", rt, id), rt: rt.to_string(), nw, bind: bind.to_string(), nc, sigkind: "send".into(), steps, expect: Value::Null,
-    };
+    let mk = |id: &str, nw: usize, bind: &str, nc: usize, steps: Vec<Value>| -> Cfg { Cfg {
+        id: format!("race-{}-{}", rt, id), rt: rt.to_string(), nw, bind: bind.to_string(), nc, sigkind: "send".into(), flavor: "multi".into(), restart: false, steps, expect: Value::Null,
+    } };
     // the traffic states that are in flight at the instant of the signal, deterministically, on both runtimes:
     // handler running (close and keep-alive), response being written (client reads slowly), idle keep-alive,
     // half-sent request, WebSocket open.  run must return; the process (and the tokio runtime) stays alive, so
@@ -1044,10 +1116,36 @@ pub fn race_scenarios(rt: &str) -> Vec<Cfg> {
             json!(["connect", 5]), json!(["half", 5, "s"]),
             json!(["connect", 6]), json!(["half", 6, "w"]), json!(["rest", 6, "ws"]), json!(["await", 6, "H_Read"]),
             json!(["connect", 7]), json!(["half", 7, "b"]), json!(["rest", 7, "keep"]), json!(["await", 7, "H_Finish"]), json!(["recvpart", 7]),
-            json!(["sig"]), json!(["await", -1, "Run_Return"]), json!(["sleep", 60]),
+            json!(["sig"]), json!(["await", -1, "Run_Return"]), json!(["sleep", if i == 0 { 60 } else { 400 }]),
         ]));
     }
+    // scale: 3 x pool + 2 connections that all stay open (pool fully occupied, 2 x pool + 2 jobs waiting), up to 48
+    for (nw, total) in [(1usize, 5usize), (2, 8), (4, 14), (8, 26), (8, 48)] {
+        let mut steps = vec![];
+        for c in 1..=(total as i64) {
+            steps.push(json!(["connect", c]));
+            steps.push(json!(["half", c, if (c as usize) <= nw { "l" } else { "s" }]));
+            steps.push(json!(["rest", c, "keep"]));
+            if (c as usize) <= nw {
+                steps.push(json!(["await", c, "H_Read"]));
+            }
+        }
+        steps.push(json!(["await", total as i64, "Accept_Return"]));
+        steps.push(json!(["sig"]));
+        let mut cfg = mk(&format!("queue-depth-{}-{}", nw, total), nw, ["0.0.0.0", "127.0.0.1", "::"][total % 3], total, steps);
+        cfg.sigkind = if total % 2 == 0 { "twice".into() } else { "send".into() };
+        cfg.restart = total == 8 || total == 26;
+        v.push(cfg);
+    }
     if rt == "threaded" {
+        // the run thread is held right behind its wake-up connect: by then the flag must already be set, so the
+        // accept loop sees it with the wake-up connection and leaves (a tree that connects before it stores the
+        // flag lets the loop go back into accept() for ever)
+        v.push(mk("held-after-wake-connect", 2, "127.0.0.1", 1, vec![
+            json!(["connect", 1]), json!(["half", 1, "s"]), json!(["rest", 1, "keep"]), json!(["recv", 1]),
+            json!(["hold", 0, "Wake_Connect"]), json!(["sig"]), json!(["await", -1, "Wake_Connect"]),
+            json!(["await", -1, "Pool_Stop"]), json!(["release", 0, "main"]),
+        ]));
         // flag set, a client connects (and is accepted, and dropped) before the wake-up connection is made
         v.push(mk("client-before-wake", 2, "0.0.0.0", 2, vec![
             json!(["connect", 1]), json!(["half", 1, "s"]), json!(["rest", 1, "keep"]), json!(["recv", 1]),
@@ -1092,6 +1190,28 @@ pub fn race_scenarios(rt: &str) -> Vec<Cfg> {
             json!(["hold", 0, "Accept_Return"]), json!(["connect", 1]), json!(["half", 1, "s"]), json!(["rest", 1, "close"]),
             json!(["await", 1, "Accept_Return"]), json!(["sig"]), json!(["release", 0, "acc"]), json!(["recv", 1]),
         ]));
+        // current_thread runtime: the accept loop is held between spawn and the next select!, so the spawned task
+        // has not been polled at all when the token is cancelled; its request is complete on the wire and must
+        // still be answered after run has returned (the runtime keeps being driven)
+        let mut c1 = mk("current-thread-spawned-not-polled", 1, "127.0.0.1", 2, vec![
+            json!(["hold", 0, "Dispatch"]), json!(["connect", 1]), json!(["half", 1, "s"]), json!(["rest", 1, "keep"]),
+            json!(["connect", 2]), json!(["half", 2, "b"]), json!(["rest", 2, "close"]),
+            json!(["await", -1, "Dispatch"]), json!(["sig"]), json!(["release", 0, "acc"]),
+            json!(["await", -1, "Run_Return"]), json!(["sleep", 400]),
+        ]);
+        c1.flavor = "current".into();
+        c1.restart = true;
+        v.push(c1);
+        let mut c2 = mk("current-thread-inflight", 1, "::", 4, vec![
+            json!(["connect", 1]), json!(["half", 1, "l"]), json!(["rest", 1, "close"]), json!(["await", 1, "H_Read"]),
+            json!(["connect", 2]), json!(["half", 2, "b"]), json!(["rest", 2, "keep"]), json!(["await", 2, "H_Finish"]), json!(["recvpart", 2]),
+            json!(["connect", 3]), json!(["half", 3, "s"]), json!(["rest", 3, "keep"]), json!(["recv", 3]),
+            json!(["connect", 4]), json!(["half", 4, "w"]), json!(["rest", 4, "ws"]), json!(["await", 4, "H_Read"]),
+            json!(["sig"]), json!(["await", -1, "Run_Return"]), json!(["sleep", 700]),
+        ]);
+        c2.flavor = "current".into();
+        c2.sigkind = "twice".into();
+        v.push(c2);
         // cancel with connections waiting in the backlog: served or reset, both allowed
         v.push(mk("cancel-with-backlog", 2, "0.0.0.0", 3, vec![
             json!(["hold", 0, "Dispatch"]), json!(["connect", 1]), json!(["await", -1, "Dispatch"]),
@@ -1135,6 +1255,7 @@ pub fn behaviour_scenario(b: &Value, idx: usize) -> Cfg {
         }
         match a {
             "Sig_Send" => steps.push(json!(["sig"])),
+            "Sig_Again" => steps.push(json!(["sig2"])),
             "Cli_Connect" => steps.push(json!(["connect", c])),
             "Cli_SendHalf" => steps.push(json!(["half", c, "l"])),
             "Cli_SendRest" => steps.push(json!(["rest", c, k])),
@@ -1168,11 +1289,11 @@ pub fn behaviour_scenario(b: &Value, idx: usize) -> Cfg {
         }
     }
     Cfg { id: format!("tlc-{}-{}", rt, idx), rt, nw, bind: ["127.0.0.1", "0.0.0.0", "::"][idx % 3].to_string(), nc,
-          sigkind: "send".into(), steps, expect: b["final"].clone() }
+          sigkind: "send".into(), flavor: "multi".into(), restart: false, steps, expect: b["final"].clone() }
 }
 
 /// Runs one scenario; `start` builds and starts the real App for this runtime.
-pub fn run_scenario<F>(cfg: Cfg, rng: &mut hvutil::Rng, start: F) -> (Value, bool)
+pub fn run_scenario<F>(cfg: Cfg, rng: &mut hvutil::Rng, start: F, fixed_port: Option<u16>) -> (Value, bool, u16)
 where
     F: Fn(&Cfg, Arc<Ctx>, u16) -> Server,
 {
@@ -1183,7 +1304,7 @@ where
         attempt += 1;
         let ctx = Ctx::new();
         set_current(Some(ctx.clone()));
-        let port = pick_port(rng);
+        let port = fixed_port.unwrap_or_else(|| pick_port(rng));
         let server = start(&cfg, ctx.clone(), port);
         let target: SocketAddr = if cfg.bind.contains(':') { format!("[::1]:{}", port) } else { format!("127.0.0.1:{}", port) }.parse().unwrap();
         let d = Driver { ctx: ctx.clone(), cfg: cfg.clone(), port, target, clis: HashMap::new(), server, sig_sent: false, problems: vec![], hang: false, grants: HashMap::new(), seen: HashMap::new(), diverged: false, sig_thread: None };
@@ -1191,9 +1312,20 @@ where
         if up && !ctx.has_event("Run_Return") {
             break (ctx, d);
         }
+        if fixed_port.is_some() {
+            // the second run on the port that the first one has just released did not come up
+            set_current(None);
+            let ev = vec![json!({"ev": "Reset", "th": "drv", "c": -1, "v": cfg.nw, "k": cfg.rt}),
+                          json!({"ev": "Restart_Failed", "th": "drv", "c": -1, "v": 0, "k": ""})];
+            return (json!({"scenario": cfg.id, "rt": cfg.rt, "nw": cfg.nw, "bind": cfg.bind, "nc": cfg.nc, "sigkind": cfg.sigkind,
+                           "flavor": cfg.flavor, "restart": false, "steps": cfg.steps, "expect": cfg.expect,
+                           "verdict": {"returned": false, "rebind": false, "wait_level": 3, "sig_to_return_ms": 0},
+                           "problems": ["a second run on the same address did not start listening"], "hang": false, "diverged": false,
+                           "outcome": {}, "events": ev}), false, port);
+        }
         if attempt >= 4 {
             set_current(None);
-            return (json!({"scenario": cfg.id, "tool_error": "server did not start", "problems": d.problems}), false);
+            return (json!({"scenario": cfg.id, "tool_error": "server did not start", "problems": d.problems}), false, port);
         }
     };
     let _ = &ctx;
@@ -1209,9 +1341,10 @@ where
     let outcome: HashMap<String, Value> = d.clis.iter().map(|(c, cl)| (c.to_string(), json!({"resp": cl.resp, "ended": cl.ended}))).collect();
     let hang = d.hang;
     set_current(None);
+    let port = d.port;
     (json!({"scenario": cfg.id, "rt": cfg.rt, "nw": cfg.nw, "bind": cfg.bind, "nc": cfg.nc, "sigkind": cfg.sigkind,
-            "steps": cfg.steps, "expect": cfg.expect, "verdict": verdict, "problems": d.problems, "hang": hang, "diverged": d.diverged,
-            "outcome": outcome, "events": events}), hang)
+            "flavor": cfg.flavor, "restart": cfg.restart, "steps": cfg.steps, "expect": cfg.expect, "verdict": verdict, "problems": d.problems, "hang": hang, "diverged": d.diverged,
+            "outcome": outcome, "events": events}), hang, port)
 }
 
 // process-wide current context for the hook
@@ -1271,6 +1404,8 @@ where
                             bind: v["bind"].as_str().unwrap_or("127.0.0.1").to_string(),
                             nc: v["nc"].as_u64().unwrap_or(0) as usize,
                             sigkind: v["sigkind"].as_str().unwrap_or("send").to_string(),
+                            flavor: v["flavor"].as_str().unwrap_or("multi").to_string(),
+                            restart: v["restart"].as_bool().unwrap_or(false),
                             steps: v["steps"].as_array().cloned().unwrap_or_default(),
                             expect: v["expect"].clone(),
                         });
@@ -1287,9 +1422,27 @@ where
         if i < skip {
             continue;
         }
-        let (mut out, hang) = run_scenario(cfg, &mut rng, &start);
+        let again = if cfg.restart {
+            // lifecycle: after the shutdown a second App runs on the same address and port and serves a request
+            let mut c2 = cfg.clone();
+            c2.id = format!("{}-restart", cfg.id);
+            c2.restart = false;
+            c2.nc = 2;
+            c2.steps = vec![json!(["connect", 1]), json!(["half", 1, "s"]), json!(["rest", 1, "keep"]), json!(["recv", 1]),
+                            json!(["connect", 2]), json!(["half", 2, "l"]), json!(["rest", 2, "close"]), json!(["await", 2, "H_Read"])];
+            Some(c2)
+        } else {
+            None
+        };
+        let (mut out, mut hang, port) = run_scenario(cfg, &mut rng, &start, None);
         out["index"] = json!(i);
         hvutil::out_line(&out);
+        if let (Some(c2), false) = (again, hang) {
+            let (mut out2, hang2, _) = run_scenario(c2, &mut rng, &start, Some(port));
+            out2["index"] = json!(i);
+            hvutil::out_line(&out2);
+            hang = hang2;
+        }
         if hang {
             // a stuck server thread cannot be removed from this process: the driver restarts us after this scenario
             std::process::exit(3);
